@@ -49,6 +49,19 @@ Section Cursor.
   Definition sw_step (w : sw) (n : N) : sw :=
     mkSW (sw_iters w + n) (sw_items w) (sw_hit w) (sw_filled w).
 
+  (* func nextStep(step uint64, cursor Cursor, deadline *deadline.Deadline) {
+       if step&(yieldStep-1) == (yieldStep - 1) { runtime.Gosched(); deadline.Check() }
+       if cursor != nil { cursor.Step(1) }
+     }
+     Two independent statements: on every 256th visited entry (step = 255, 511, ...) the goroutine
+     yields and the deadline is checked — neither touches the writer — and, yield or not, the
+     cursor is stepped.  (The cursor is the scanWriter in every paginated command, never nil.) *)
+  Definition yield_step : N := 256.
+  Definition yields (step : N) : bool := N.land step (yield_step - 1) =? yield_step - 1.
+  Definition next_step (step : N) (w : sw) : sw :=
+    let w := if yields step then w (* Gosched; deadline.Check *) else w in
+    sw_step w 1.
+
   (* pushObject, output other than COUNT:
        ok := testObject(o); if !ok { return keepGoing(=true) }
        sw.filled = append(sw.filled, opts); sw.numberItems++
@@ -70,7 +83,7 @@ Section Cursor.
         let count := count + 1 in
         if count <=? offset then iterate limit offset rest count w
         else
-          let w := sw_step w 1 in                       (* nextStep: cursor.Step(1) *)
+          let w := next_step count w in                 (* nextStep(count, cursor, deadline) *)
           if stop o then w                              (* return false before the iterator *)
           else
             let '(w, keepon) := push_object limit w o in
